@@ -1,7 +1,11 @@
 (* C01: concrete instance of the chain model (RTP/RTCP packets as projected by the
    harness), executable checkers over harness cases:
-     c01_mismatches     model output <> implementation output (correspondence)
-     c01_spec_failures  specification oracle on the IMPLEMENTATION's outputs *)
+     c01_mismatches     model output <> implementation output (correspondence); codes: 1 RTP write
+                        (round 4: per binding of the local stream, run_wops_b), 2 RTP read, 3 RTCP read,
+                        4 RTCP write, 5 close, 6 counts, 7 injection replay, 8 aliasing, 9 teardown
+                        history, 10 the Close error entry by entry
+     c01_spec_failures  specification oracle on the IMPLEMENTATION's outputs (round 4: 7 a written
+                        packet reached another binding's next writer, 77-79 Close errors lost / made up) *)
 From IV Require Import Base.Codes Proofs.TwccHdrExtProofs Check.C15Check.
 From IV Require Export Base.Word Model.TwccHdrExt Model.Chain Model.DumpLog Model.ChainTeardown Model.CloseErrs Model.Rebind.
 From IV Require Import Proofs.ChainProofs.
